@@ -90,7 +90,8 @@ def api_correspondence(ctx, tg, tga):
     mtext.append("f2u c 32 %d %s\n" % (len(fs), " ".join(qtok(Fraction(f)) for f in fs)))
     itext.append("f2u c %d %s\n" % (len(fs), " ".join(fhex(f) for f in fs)))
     # --- padding cases: in-bounds ones are executed, the others only have their offsets read
-    pads = []
+    # (lengths "as main would choose them" come from the extracted GENERATED size functions, Gen_ScalingZ)
+    pre, gq = [], []
     for i in range(40 if quick else 600):
         n = rng.randint(4, 40)
         nbk = rng.randint(1, 9)
@@ -100,12 +101,12 @@ def api_correspondence(ctx, tg, tga):
         buckets = [nbk - 1 - j for j, f in enumerate(filled) if f]
         sp = rng.choice([0, n, n, n + 1, n + 2, rng.randint(n, 3 * n)])
         need = max(buckets) * sp + n
-        nmax = max(2, rng.choice([need, need, need + 1, need + rng.randint(0, 40), need - 1, need - rng.randint(1, n),
-                                  bc.main_sizes_double(n, nbk, sp / n + 0.01, 1.0, True)[2]]))
-        pads.append(("p%d" % i, n, buckets, nmax, sp))
-    pads.append(("pwrap", 8, [3, 0], 64, 2 ** 31))     # 3*2^31: a 64-bit product (size_t member), no uint32 wrap
-    # what main can hand to the field: sizes derived from (n, pattern, spacing_ps, RoundPadding), buckets not overlapping
-    dpads = []
+        choice = rng.randrange(7)
+        alts = [need, need, need + 1, need + rng.randint(0, 40), need - 1, need - rng.randint(1, n), None]
+        pre.append(("p%d" % i, n, buckets, alts[choice], sp, len(gq) if alts[choice] is None else None))
+        if alts[choice] is None:
+            gq.append((n, nbk, sp / n + 0.01, 1.0, True))
+    dq = []
     for i in range(30 if quick else 400):
         n = rng.randint(4, 40)
         nbk = rng.randint(2, 9 if rng.random() < 0.8 else 40)
@@ -117,8 +118,18 @@ def api_correspondence(ctx, tg, tga):
         s = n + rng.choice([0, 0.25, 0.5, 0.5625, 0.75, 1.0, 1.5, rng.randint(0, 8 * nbk) / 16.0, rng.uniform(0, n)])
         sps = s / n
         rp = rng.random() < 0.4
-        sp, padded, spaced, nmax = bc.main_sizes_double(n, nbk, sps, 1.0, rp)
-        dpads.append(("d%d" % i, n, buckets, nmax, sp))
+        dq.append(("d%d" % i, n, buckets, nbk, sps, rp))
+    gres = bc.gen_sizes_batch(vp_coq.model_path("bounds"), gq + [(n, nbk, sps, 1.0, rp) for (_, n, _, nbk, sps, rp) in dq])
+    pads = []
+    for (cid, n, buckets, nmax, sp, gi) in pre:
+        if gi is not None:
+            nmax = gres[gi][2]
+        pads.append((cid, n, buckets, max(2, nmax), sp))
+    pads.append(("pwrap", 8, [3, 0], 64, 2 ** 31))     # 3*2^31: a 64-bit product (size_t member), no uint32 wrap
+    # what main can hand to the field: sizes derived from (n, pattern, spacing_ps, RoundPadding), buckets not overlapping
+    dpads = []
+    for (cid, n, buckets, nbk, sps, rp), (sp, padded, nmax) in zip(dq, gres[len(gq):]):
+        dpads.append((cid, n, buckets, nmax, sp))
     pads += dpads
     for (cid, n, buckets, nmax, sp) in pads:
         mtext.append("pad %s %d %d %d %d 0 %s\n" % (cid, n, len(buckets), nmax, sp, " ".join(map(str, buckets))))
@@ -404,11 +415,15 @@ def program_runs(ctx, tg, tga):
         for i, cfg in enumerate(cfgs):
             n = cfg["GridSize"]
             cur = cfg.get("BunchCurrent", [1.0])
+            # inputs of the generated size functions: options as given on the command line, spacing_ps from the
+            # double-precision evaluation of the expression the translator read from main() (lib/scaling_eval.py)
+            zs, qs, bs = bc.gen_size_inputs(cfg)
             sps = bc.main_spacing_ps(cfg)
             cfg["_sps"] = sps
             pad = cfg.get("padding", 8.0)
             rp = cfg.get("RoundPadding", 1)
-            mtext.append("sizes s%d %d %d %s %s %d\n" % (i, n, len(cur), qtok(Fraction(sps)), qtok(Fraction(pad)), rp))
+            mtext.append(bc.gsizes_text("s%d" % i, zs, qs, bs))
+            mtext.append("sizes h%d %d %d %s %s %d\n" % (i, n, len(cur), qtok(Fraction(sps)), qtok(Fraction(max(pad, 1.0))), rp))
             zb = f32(f32((n - 1) / 2.0) + f32(cfg.get("PhaseSpaceShiftY", 0.0)))
             cfg["_zb"] = zb
             mtext.append("fp f%d %d %d %s %d\n" % (i, n, cfg.get("derivation", 4), qtok(Fraction(zb)), 1))
@@ -417,16 +432,21 @@ def program_runs(ctx, tg, tga):
         for i, cfg in enumerate(cfgs):
             n = cfg["GridSize"]
             cur = cfg.get("BunchCurrent", [1.0])
-            sz = [int(t, 16) if t != "-1" else -1 for t in model["s%d" % i]["sizes"][0]]
+            g = [int(t, 16) if t != "-1" else -1 for t in model["s%d" % i]["sizes"][0]]
+            # [spacing_bins, radiation-field length, wake-field length] of the generated model (binary64 arithmetic mirrored)
+            sz = [g[0], g[1], g[2] if len(cur) > 1 else g[1], g[2]]
             cfg["_model_sizes"] = sz
-            # the program's own double evaluation must agree with the exact model away from ties
-            dbl = bc.main_sizes_double(n, len(cur), cfg["_sps"], cfg.get("padding", 8.0), cfg.get("RoundPadding", 1))
-            if list(dbl) != sz:
-                ctx.notes.append("exact sizes %s differ from double evaluation %s (tie within an ulp) for %s" % (sz, dbl, {k: v for k, v in cfg.items() if not k.startswith('_')}))
+            # the hand-written copy of the sizing (Model/Bounds.v main_sizes, theorem pad_in_bounds_fixed) is only compared
+            hz = [int(t, 16) if t != "-1" else -1 for t in model["h%d" % i]["sizes"][0]]
+            if [hz[0], hz[1], hz[3]] != [g[0], g[1], g[2]]:
+                ctx.count("program:hand-model-differs")
+                if not any(x.startswith("hand-written size model") for x in ctx.notes):
+                    ctx.notes.append("hand-written size model (Bounds.main_sizes) %s differs from the generated one %s for %s" %
+                                     (hz, g, {k: v for k, v in cfg.items() if not k.startswith('_')}))
             buckets = [len(cur) - 1 - j for j, c in enumerate(cur) if c > 0]
             cfg["_buckets"] = buckets
-            if len(cur) > 1:
-                m2.append("pad p%d %d %d %d %d 0 %s\n" % (i, n, len(buckets), dbl[3], dbl[0], " ".join(map(str, buckets))))
+            if len(cur) > 1 and g[0] >= 0 and g[2] >= 0:
+                m2.append("pad p%d %d %d %d %d 0 %s\n" % (i, n, len(buckets), g[2], g[0], " ".join(map(str, buckets))))
         model2 = run_model("".join(m2)) if m2 else {}
         jobs = []
         for i, cfg in enumerate(cfgs):
@@ -629,9 +649,10 @@ def run(ctx):
     dis += program_runs(ctx, tg, tga)
     ctx.extra["correspondence_disagreements"] = len(dis)
     ctx.trusted.add("sanitizers (gcc 12 ASan+UBSan float-cast-overflow; note: gcc's ASan does not instrument std::complex loads) and valgrind memcheck: search only")
-    ctx.trusted.add("lib/bounds_cases.py main_spacing_ps: Python replica of main.cpp's double arithmetic, validated by the padded lengths read from the results file")
+    ctx.trusted.add("lib/scaling_eval.py: double-precision evaluator (CPython floats, struct, libm sqrt/pow) of the spacing_ps expression the translator reads from main() "
+                    "on every run - no hand-written copy of main()'s formulas; validated by the padded lengths read from the results file")
     ctx.assumptions += ["PARTIAL: memory safety of C++ is not a theorem about a Gallina model; the theorems cover the size/index arithmetic of the modelled buffers only",
-                        "products GridSize*spacing_ps are taken exactly in the model (the program rounds to double; generated cases are compared with the double evaluation and ties are noted)",
+                        "the generated size model rounds every double operation to binary64 (rnd53, proved equal to Flocq's round-to-nearest-even): it is the program's arithmetic, ties included",
                         "everything that is not index arithmetic (library internals, lifetime, uninitialised locals of the text readers) is only searched"]
     conclude_c17(ctx, coq, dis)
 
